@@ -78,6 +78,20 @@ CONSTS = [
     ("sizeofMemPoolPage", "sizeof(ABTI_mem_pool_page)"),
     ("sizeofMemPoolHeader", "sizeof(ABTI_mem_pool_header)"),
     ("taggedPtrCas", "ABTD_ATOMIC_SUPPORT_TAGGED_PTR"),
+    # widths (bytes) of the counters that the Lean models treat as unbounded naturals / integers: the theorems hold for
+    # values below 2^(8*width-1); a narrower field would make the bound reachable by an ordinary program
+    ("bytesMutexNestingCnt", "sizeof(((ABTI_mutex *)0)->nesting_cnt)"),
+    ("bytesPoolNumBlocked", "sizeof(((ABTI_pool *)0)->num_blocked)"),
+    ("bytesPoolNumScheds", "sizeof(((ABTI_pool *)0)->num_scheds)"),
+    ("bytesThreadRequest", "sizeof(((ABTI_thread *)0)->request)"),
+    ("bytesSchedRequest", "sizeof(((ABTI_sched *)0)->request)"),
+    ("bytesBarrierCounter", "sizeof(((ABTI_barrier *)0)->counter)"),
+    ("bytesBarrierNumWaiters", "sizeof(((ABTI_barrier *)0)->num_waiters)"),
+    ("bytesFutureCounter", "sizeof(((ABTI_future *)0)->counter)"),
+    ("bytesFutureNumCompartments", "sizeof(((ABTI_future *)0)->num_compartments)"),
+    ("bytesRwlockReaderCount", "sizeof(((ABTI_rwlock *)0)->reader_count)"),
+    ("bytesFutexVal", "sizeof(((ABTD_futex_multiple *)0)->val)"),
+    ("bytesXstreamRank", "sizeof(((ABTI_xstream *)0)->rank)"),
     ("useAlignedAlloc", "ABT_CONFIG_USE_ALIGNED_ALLOC"),
     ("offsetofYthreadCtx", "offsetof(ABTI_ythread, ctx)"),
 ]
